@@ -26,7 +26,7 @@ func expLeaf(a *model.Attr, mdl *model.Model, v reflect.Value) *Node {
 	case model.TInt64:
 		n.Kind = "int64"
 		switch v.Kind() {
-		case reflect.Uint32, reflect.Uint64:
+		case reflect.Uint32, reflect.Uint64, reflect.Uint:
 			n.I = int64(v.Uint())
 		default:
 			n.I = v.Int()
